@@ -38,7 +38,7 @@ class Cmp:
         self.n = 0
 
     def bad(self, kind, msg, detail=None):
-        lang = {"ser": "python|serialize", "cxxser": "cxx|serialize"}.get(self.side, f"rust|{self.side}")
+        lang = {"ser": "python|serialize", "cxxser": "cxx|serialize", "javaser": "java|serialize"}.get(self.side, f"rust|{self.side}")
         self.rep.add(f"{self.prop}|{lang}|{kind}", msg, self.where, detail)
 
     def order_ok(self, n, order):
